@@ -484,6 +484,19 @@ def make_range(x1, x2, xform):
     return arr
 
 
+def _no_underflow(cs):
+    """exp(-x^2/2) integrands on ranges reaching |x| > 30 return zeros and SUBNORMAL values only: products and
+    sums of subnormals carry no relative accuracy, so a bound relative to max|f| (the checkers' reading of
+    the statement) is not meaningful there.  Such cases get a polynomially decaying integrand instead."""
+    for c in cs:
+        big = max(abs(float.fromhex(c[k])) for k in ("x1", "x2", "y1", "y2") if k in c) > 30.0
+        if big and c.get("fn") == "gauss":
+            c["fn"] = "runge"
+        if big and c.get("fn") == "gauss2":
+            c["fn"] = "ratio"
+    return cs
+
+
 class Func(Entry):
     """QGauss(npts).integrate([x1,x2], func), integrate(..., npts=), integrate_func, qgauss; the integrand as
     def / lambda / bound method / functools.partial / object with __call__ / numpy.vectorize / numpy ufunc /
@@ -527,7 +540,7 @@ class Func(Entry):
                 r.choice(["integrate", "integrate_npts", "integrate_func", "qgauss", "integrate_pos"])
             cs.append({"x1": hx(a), "x2": hx(b), "n": r.choice([1, 2, 3, 5, 8, 13, 20]), "fn": fn, "via": via,
                        "fform": fform, "xform": xform, "family": "form:%s/%s" % (fform, xform)})
-        return cs
+        return _no_underflow(cs)
 
     def impl(self, c):
         import functools
@@ -657,6 +670,27 @@ class Data(Entry):
             n = r.choice([r.randrange(1, 8), r.randrange(1, 41)])
             cs.append({"xv": hxl(xs), "yv": hxl(ys), "n": n, "via": r.choice(["integrate", "integrate_data", "qgauss"]),
                        "family": "data:%s/%s" % (spacing, yk)})
+        # tables in other units: very unevenly spaced abscissae scaled by 10^k (spacings far below / above any
+        # absolute tolerance a shortcut for "evenly spaced" data might use), and evenly spaced ones with a
+        # relative jitter of 1e-7..1e-3 of the spacing
+        for _ in range(ctx.n(10, 50) if round == 0 else 6):
+            npt = r.choice([3, 4, 6, 11, 30])
+            scale = r.choice([1e-12, 1e-10, 1e-9, 1e-9, 1e-8, 1e-7, 1e-5, 1e5, 1e9, 1e12])
+            if r.random() < 0.6:
+                xs = [r.uniform(-2, 2)]
+                for _i in range(npt - 1):
+                    xs.append(xs[-1] + r.choice([0.05, 0.3, 1.0, 4.0]) * r.uniform(0.5, 1.5))
+                fam = "data:scaled-uneven"
+            else:
+                jit = 10.0 ** r.randrange(-7, -2)
+                xs = [1.0 + 0.25 * i * (1.0 + jit * r.uniform(-1, 1)) for i in range(npt)]
+                fam = "data:scaled-jittered"
+            xs = sorted(set(x * scale for x in xs))
+            if len(xs) < 3:
+                continue
+            ys = [r.uniform(-5, 5) for _x in xs]
+            cs.append({"xv": hxl(xs), "yv": hxl(ys), "n": r.choice([2, 3, 5, 8, 13, 21]),
+                       "via": r.choice(["integrate", "integrate_data", "qgauss"]), "family": fam})
         cs += self.form_cases(ctx, round)
         return cs
 
@@ -812,7 +846,7 @@ class Func2(Entry):
             nx, ny = r.choice([(1, 7), (7, 1), (3, 3), (1, 8), (2, 4), (3, 43), (43, 3), (1, 129), (8, 16), (4, 5)])
             cs.append({"nx": nx, "ny": ny, "x1": hx(a), "x2": hx(b), "y1": hx(c_), "y2": hx(d), "fn": r.choice(names),
                        "xform": xf, "yform": yf, "family": "form2d:%s/%s" % (xf, yf)})
-        return cs
+        return _no_underflow(cs)
 
     def classify(self, c, out, v):
         ints = ("i8", "i4", "u1", "u8", "f4", "intlist")
